@@ -399,11 +399,16 @@ def rowEntries (cells : List Cell) (field : String) : List (Int × Val) :=
 def arrayRowOf (filtered : List Cell) (field : String) (p : Date × Date) : ArrayRow :=
   { period := p.1, entries := rowEntries (periodCells filtered p) field }
 
+/-- `triangle.is_incremental` -/
+def firstIsIncremental : List Cell → Bool
+  | c :: _ => c.kind == CellKind.incremental
+  | [] => false
+
 /-- `triangle_to_array_data_frame(triangle, field)` -/
 def toArrayFrame (t : List Cell) (field : String) : Except Err (List ArrayRow) :=
   (Triangle.ofCells (t.filter fun c => c.values.contains field)).bind fun filtered =>
   if (metasOf t).length > 1 then .error .valueError
-  else if (match t with | c :: _ => c.kind == CellKind.incremental | [] => false) then .error .valueError
+  else if firstIsIncremental t then .error .valueError
   else .ok ((periodsOf filtered).map (arrayRowOf filtered field))
 
 def valNum? : Val → Option Rat
